@@ -27,12 +27,13 @@ because the model is a pure function; (ii) with different schemes the result is 
 normalised in place (`relative_to_scheme_mismatch`); (iii) **the round trip itself**
 (`roundtrip_on_class_partial`) for same scheme, equal authorities, absolute paths (the base's may
 also be empty), a target that is not the root, the "same document" shortcut not taken, and a
-remainder that does not begin with an empty segment unless a common directory precedes it.  There
+remainder that does not begin with an empty segment unless a common directory precedes it — and
+for a target that is the root with the base below it (`roundtrip_root_partial`).  There
 `a.relative_to(b)` is `../` for every remaining segment of the base's directory followed by the
 remainder of `a` (`relative_to_on_class`), and resolving it against `b` gives a URI/IRI equal to `a`
 (`Lemmas/RelativeRoundTrip.lean`, through `C06.resolve_relative_authority`); the class is disjoint
-from `f12` (`class_outside_f12`).  PARTIAL: outside that class (bases without authority, the root,
-the shortcut, the fallbacks) the round trip is judged on the implementation by the oracle on every
+from `f12` (`class_outside_f12`).  PARTIAL: outside that class (bases without authority, the root
+seen from its own level, the shortcut, the fallbacks) the round trip is judged on the implementation by the oracle on every
 generated pair: a failing pair outside `f12`, or any difference between model and implementation,
 is a violation.
 -/
@@ -97,6 +98,28 @@ theorem roundtrip_on_class_partial (G : Grammar) (ok : Lemmas.Grammar.Ok G) (okp
     ∃ r t, Ref.relative_to a b = some r ∧ Ref.resolve r b = some t ∧ key t = key a :=
   Lemmas.relative_roundtrip G ok okp oka we a b aa ab ha hb hsch haa hab hauth hpa hpb hne hcls hnsp
 
+/-- **the round trip when the target is the root** and the base lies below it (`https://crates.io/`
+relative to `https://crates.io/crates/iref` is `..`): the reference is `..` repeated -/
+theorem roundtrip_root_partial (G : Grammar) (ok : Lemmas.Grammar.Ok G) (okp : Lemmas.Grammar.OkPath G)
+    (oka : Lemmas.Grammar.OkAuth G) (we : Lemmas.Grammar.OkWE G) (a b aa ab : Text)
+    (ha : RE.Matches G.full a) (hb : RE.Matches G.full b)
+    (hsch : (split a).scheme = (split b).scheme)
+    (haa : (split a).authority = some aa) (hab : (split b).authority = some ab) (hauth : authKey aa = authKey ab)
+    (hpa : isAbs (split a).path = true) (hpb : isAbs (split b).path = true ∨ (split b).path = [])
+    (hroot : nsegs (split a).path = [])
+    (hbelow : nsegs (Path.parent_or_empty (split b).path) ≠ [])
+    (hnsp : (((split a).query.isSome || (split a).fragment.isSome) &&
+      ((split a).query.isSome || (split b).query.isNone) &&
+      some (Lemmas.renderRel (Lemmas.relSegs a b)) == Path.last (split b).path) = false) :
+    ∃ r t, Ref.relative_to a b = some r ∧ Ref.resolve r b = some t ∧ key t = key a :=
+  Lemmas.relative_roundtrip_root G ok okp oka we a b aa ab ha hb hsch haa hab hauth hpa hpb hroot hbelow hnsp
+
+/-- the documented example: `s://h/` relative to `s://h/c/i` is `..` -/
+example : Ref.relative_to [0x73,0x3A,0x2F,0x2F,0x68,0x2F] [0x73,0x3A,0x2F,0x2F,0x68,0x2F,0x63,0x2F,0x69]
+    = some [0x2E,0x2E] ∧
+    nsegs (split [0x73,0x3A,0x2F,0x2F,0x68,0x2F]).path = [] ∧
+    nsegs (Path.parent_or_empty (split [0x73,0x3A,0x2F,0x2F,0x68,0x2F,0x63,0x2F,0x69]).path) ≠ [] := by decide
+
 /-- … and the class is disjoint from what is left of F12 -/
 theorem class_outside_f12 (a b : Text) (hpa : isAbs (split a).path = true)
     (hcls : (!(Lemmas.remainder a b).2.2 && (Lemmas.remainder a b).1.head? == some []) = false) :
@@ -121,14 +144,14 @@ theorem relative_to_on_class (G : Grammar) (ok : Lemmas.Grammar.Ok G) (okp : Lem
     (hsch : (split a).scheme = (split b).scheme)
     (haa : (split a).authority = some aa) (hab : (split b).authority = some ab) (hauth : authKey aa = authKey ab)
     (hpa : isAbs (split a).path = true) (hpb : isAbs (split b).path = true ∨ (split b).path = [])
-    (hne : nsegs (split a).path ≠ [])
+    (hLne : Lemmas.relSegs a b ≠ [])
     (hcls : (!(Lemmas.remainder a b).2.2 && (Lemmas.remainder a b).1.head? == some []) = false)
     (hnsp : (((split a).query.isSome || (split a).fragment.isSome) &&
       ((split a).query.isSome || (split b).query.isNone) &&
       some (Lemmas.renderRel (Lemmas.relSegs a b)) == Path.last (split b).path) = false) :
     Ref.relative_to a b = some (recompose (Lemmas.pathQF (Lemmas.renderRel (Lemmas.relSegs a b))
       (split a).query (split a).fragment)) :=
-  Lemmas.relative_to_explicit G ok okp oka we a b aa ab ha hb hsch haa hab hauth hpa hpb hne hcls hnsp
+  Lemmas.relative_to_explicit G ok okp oka we a b aa ab ha hb hsch haa hab hauth hpa hpb hLne hcls hnsp
 
 /-- end to end, URI family: accepted `Uri`s in the class -/
 theorem uri_roundtrip_on_class_partial (a b aa ab : Text) (ha8 : ∀ c ∈ a, c < 256) (hb8 : ∀ c ∈ b, c < 256)
